@@ -86,9 +86,27 @@ def has_signed_part(t, shapes):
     raise ValueError(k)
 
 
-def lhs_reads(t):
-    """expressions read inside an assignment target (part-select offsets)"""
+def lhs_targets(t):
+    """signals written through an assignment target"""
     k = t[0]
+    if k == "s":
+        return [t[1]]
+    if k in ("pt", "sl"):
+        return lhs_targets(t[1])
+    if k == "o1":
+        return lhs_targets(t[2])
+    if k == "cat":
+        return [i for p in t[1] for i in lhs_targets(p)]
+    if k == "sw":
+        return [i for _, e in t[2] for i in lhs_targets(e)]
+    return []
+
+
+def lhs_reads(t):
+    """expressions read inside an assignment target (part-select offsets, selectors of choices)"""
+    k = t[0]
+    if k == "sw":
+        return [t[1]] + [e for _, x in t[2] for e in lhs_reads(x)]
     if k == "pt":
         return [t[2]] + lhs_reads(t[1])
     if k in ("sl",):
@@ -120,6 +138,47 @@ def stmts_have(stmts, pred):
     return False
 
 
+def all_shapes(d):
+    """shapes of everything an expression may name: the design signals, then one 1-bit pseudo-signal per domain with a
+    synchronous reset (index len(sigs) + j = ResetSignal(domain))"""
+    return [[x["w"], x["sg"]] for x in d["sigs"]] + [[1, False] for dd in d["doms"] if dd.get("rs")]
+
+
+def used_signals(d):
+    """indices of the design signals that occur anywhere (statement, memory expression, port)"""
+    acc = set(d["ins"]) | set(d["outs"])
+
+    def ex(t):
+        acc.update(G.sig_ids(t))
+
+    def st(stmts):
+        for s_ in stmts:
+            if s_[0] == "as":
+                ex(s_[1]); ex(s_[2])
+            elif s_[0] == "if":
+                for c_, body in s_[1]:
+                    ex(c_); st(body)
+                if s_[2] is not None:
+                    st(s_[2])
+            else:
+                ex(s_[1])
+                for _, body in s_[2]:
+                    st(body)
+    for md in d["mods"]:
+        for _, stmts in md["blocks"]:
+            st(stmts)
+        if md.get("wrap") and md["wrap"][0] in ("reset", "enable"):
+            acc.add(md["wrap"][2])
+    mm = d.get("mem")
+    if mm:
+        for e in [mm["waddr"], mm["wdata"], mm["wen"]] + [x for r_ in mm["reads"] for x in (r_["addr"], r_["en"])]:
+            ex(e)
+        if mm.get("w2"):
+            for e in (mm["w2"]["addr"], mm["w2"]["data"], mm["w2"]["en"]):
+                ex(e)
+    return {i for i in acc if i < len(d["sigs"])}
+
+
 class DGen:
     def __init__(self, rng, opts):
         self.r = rng
@@ -143,6 +202,13 @@ class DGen:
             doms.append({"name": "d1", "rst": r.choice(["sync", "none"])})
         if o.get("async") and r.random() < o["async"]:
             r.choice(doms)["rst"] = "async"
+        for dd in doms:
+            dd["edge"] = "neg" if r.random() < 0.25 else "pos"
+            dd["mod"] = 0
+            # either ResetSignal(domain) is readable everywhere (domain declared in the top module), or the domain may
+            # end up declared in a submodule (a domain is only visible in the subtree of the module declaring it)
+            dd["rs"] = dd["rst"] == "sync" and r.random() < 0.6
+            dd["local"] = (not dd["rs"]) and r.random() < 0.5
         # module tree
         nmod = r.choice([1, 2, 2, 3, 3, 4, 5])
         parent = [None]
@@ -194,17 +260,31 @@ class DGen:
             for lo, hi, mod, dom in ss:
                 whole = (len(ss) == 1 and lo == 0 and hi == sigs[i]["w"])
                 blocks.setdefault((mod, dom), []).append((i, lo, hi, whole))
+        # ResetSignal(domain) of the sync-reset domains can be read like a 1-bit input
+        pseudo = [nsig + j for j, dd in enumerate([x for x in doms if x["rs"]])]
+        shapes = shapes + [[1, False] for _ in pseudo]
         self.sigs, self.shapes, self.comb_sigs = sigs, shapes, comb_sigs
-        mods = [{"parent": parent[k], "name": f"m{k}", "blocks": []} for k in range(nmod)]
+        mods = [{"parent": parent[k], "name": f"m{k}", "blocks": [], "wrap": None} for k in range(nmod)]
+        # control inserters / domain renamer around submodules
+        ctl = [i for i in range(nsig) if roles[i] == "in" and sigs[i]["w"] >= 1]
+        for k in range(1, nmod):
+            q = r.random()
+            if q < 0.12 and ctl:
+                mods[k]["wrap"] = ["reset", r.choice(doms)["name"], r.choice(ctl)]
+            elif q < 0.24 and ctl:
+                mods[k]["wrap"] = ["enable", r.choice(doms)["name"], r.choice(ctl)]
+            elif q < 0.34 and len(doms) == 2 and doms[1]["rst"] == doms[0]["rst"] == "sync":
+                mods[k]["wrap"] = ["rename", {"sync": "d1"}]
+                doms[0]["local"] = doms[1]["local"] = False
         for (mod, dom), owned in blocks.items():
             stmts = []
             for _ in range(r.randrange(1, 4)):
                 tset = r.sample(owned, r.randrange(1, min(3, len(owned)) + 1))
                 if dom == "comb":
                     kmin = min(t[0] for t in tset)
-                    readable = [j for j in range(nsig) if j not in comb_sigs or j < kmin]
+                    readable = [j for j in range(nsig) if j not in comb_sigs or j < kmin] + pseudo
                 else:
-                    readable = list(range(nsig))
+                    readable = list(range(nsig)) + pseudo
                 stmts += self.stmt_tree(tset, readable, r.randrange(0, 3))
             # make sure every owned segment is assigned at least once
             assigned = set()
@@ -212,26 +292,48 @@ class DGen:
             for t in owned:
                 if t[0] not in assigned:
                     if dom == "comb":
-                        readable = [j for j in range(nsig) if j not in comb_sigs or j < t[0]]
+                        readable = [j for j in range(nsig) if j not in comb_sigs or j < t[0]] + pseudo
                     else:
-                        readable = list(range(nsig))
+                        readable = list(range(nsig)) + pseudo
                     stmts += self.stmt_tree([t], readable, 0)
             mods[mod]["blocks"].append([dom, stmts])
         # memory
         mem = None
         if o.get("mem") and r.random() < o["mem"]:
             mem = self.memory(nmod, doms, roles)
+        # declare a "local" domain in the deepest module whose subtree contains every user of the domain
+        def ancestors(k):
+            out = []
+            while k is not None:
+                out.append(k)
+                k = parent[k]
+            return out
+        for dd in doms:
+            users = {k for k in range(nmod) for dom, _ in mods[k]["blocks"] if dom == dd["name"]}
+            users |= {k for k in range(nmod) if mods[k]["wrap"] and mods[k]["wrap"][0] != "rename"
+                      and mods[k]["wrap"][1] == dd["name"]}
+            if mem and dd["name"] in [mem["wdom"]] + [x["dom"] for x in mem["reads"]] + \
+                    ([mem["w2"]["dom"]] if mem.get("w2") else []):
+                users.add(mem["mod"])
+            loc = dd.pop("local")
+            if loc and users:
+                common = None
+                for k in users:
+                    a = ancestors(k)
+                    common = a if common is None else [x for x in common if x in a]
+                dd["mod"] = common[0]          # deepest common ancestor (may be the top module)
         ins = [i for i in range(nsig) if roles[i] == "in"]
         outs = [i for i in segs if r.random() < 0.5]
         rename = r.random() < 0.25
-        design = {"sigs": sigs, "doms": doms, "mods": mods, "ins": ins, "outs": outs, "rename": rename, "mem": mem}
+        design = {"sigs": sigs, "doms": doms, "mods": mods, "ins": ins, "outs": outs, "rename": rename, "mem": mem,
+                  "plist": (not rename) and r.random() < 0.25}
         design["stim"] = self.stimulus(design)
         return design
 
     def collect_targets(self, stmts, acc):
         for s in stmts:
             if s[0] == "as":
-                acc.update(G.sig_ids(s[1]) if s[1][0] != "pt" else G.sig_ids(s[1][1]))
+                acc.update(lhs_targets(s[1]))
             elif s[0] == "if":
                 for _, body in s[1]:
                     self.collect_targets(body, acc)
@@ -271,6 +373,18 @@ class DGen:
             (i1, lo1, hi1, w1), (i2, lo2, hi2, w2) = r.sample(tset, 2)
             if i1 != i2:
                 return ["cat", [self.seg_lhs(i1, lo1, hi1, w1), self.seg_lhs(i2, lo2, hi2, w2)]]
+        if q < 0.63 and len(tset) >= 2:
+            # array-style target: a choice between two owned segments (SwitchValue on the left-hand side)
+            (i1, lo1, hi1, w1), (i2, lo2, hi2, w2) = r.sample(tset, 2)
+            test = self.small_unsigned(readable, 1)
+            tw = G.pyshape(test, self.shapes)[0]
+            return ["sw", test, [[["1" * tw] if tw else [""], self.seg_lhs(i1, lo1, hi1, w1)],
+                                 [None, self.seg_lhs(i2, lo2, hi2, w2)]]]
+        if q < 0.70 and hi - lo >= 1:
+            return ["o1", r.choice("us"), self.seg_lhs(i, lo, hi, whole)]       # sign reinterpretation of a target
+        if q < 0.76 and hi - lo >= 3:
+            a = r.randrange(0, hi - lo - 1)                                     # slice of a slice
+            return ["sl", ["sl", ["s", i], lo, hi], a, r.randrange(a + 1, hi - lo + 1)]
         return self.seg_lhs(i, lo, hi, whole)
 
     def seg_lhs(self, i, lo, hi, whole):
@@ -323,6 +437,13 @@ class DGen:
                "wdom": wdom, "gran": gran,
                "waddr": self.small_unsigned(noncomb, 3), "wdata": self.expr(noncomb, 1),
                "wen": self.expr(noncomb, 1), "reads": []}
+        if depth >= 2 and r.random() < 0.5:
+            # second write port; the two ports never address the same row (address LSB 0 / 1): a same-row collision
+            # of two ports is undefined in RTLIL (PRIORITY_MASK 0)
+            mem["w2"] = {"dom": r.choice(doms)["name"], "addr": self.small_unsigned(noncomb, 2),
+                         "data": self.expr(noncomb, 1), "en": self.expr(noncomb, 1),
+                         "transp": r.random() < 0.5}
+            mem["waddr"] = self.small_unsigned(noncomb, 2)
         for _ in range(r.randrange(1, 3)):
             kind = r.choice(["comb", "sync", "transp"])
             rdom = wdom if kind == "transp" else r.choice(doms)["name"]
@@ -337,7 +458,7 @@ class DGen:
         doms = design["doms"]
         steps = []
         clk = [0] * len(doms)
-        n = r.randrange(6, self.o.get("maxsteps", 12) + 1)
+        n = r.randrange(6, self.o.get("maxsteps", 12) + 1) + (8 if design.get("mem") else 0)
         while len(steps) < n:
             q = r.random()
             if q < 0.45 or not any(clk) and q < 0.5:
@@ -451,9 +572,11 @@ def _gen_cases(tier, seed):
     # structural tie of the AssignmentList lowering models (emit_value, emit_assignment_list) to the real code:
     # the same designs again, compared on the shape of every emitted process and on every emit_value result
     rnd = [c["d"] for c in cases if c["k"] == "rnd" and not c["d"].get("mem")]
-    nal = 150 if not thorough else 1500
+    nal = 100 if not thorough else 1500
     for d in rnd[-len(prio_designs()):] + rnd[:nal]:
         cases.append({"k": "al", "d": d})
+    # structural tie of the operator / part-select lowering models (ir_op2, choose_operands, emit_unary, emit_part)
+    cases += cell_cases(thorough)
     return cases
 
 
@@ -492,7 +615,8 @@ class Built:
 
 def build(d):
     """JSON design -> real amaranth objects (fresh on every call)"""
-    from amaranth.hdl import Signal, Shape, Module, ClockDomain
+    from amaranth.hdl import Signal, Shape, Module, ClockDomain, ResetSignal, ResetInserter, EnableInserter, \
+        DomainRenamer, Cat, Const
     from amaranth.hdl._ir import PortDirection
     B = Built()
     B.sigs = [Signal(Shape(s["w"], bool(s["sg"])), name=f"s{i}", init=s["init"], reset_less=bool(s["rl"]))
@@ -501,15 +625,16 @@ def build(d):
     mods = [Module() for _ in d["mods"]]
     top = mods[0]
     for dd in d["doms"]:
-        cd = ClockDomain(dd["name"], reset_less=(dd["rst"] == "none"), async_reset=(dd["rst"] == "async"))
-        top.domains += cd
+        cd = ClockDomain(dd["name"], clk_edge=dd.get("edge", "pos"), reset_less=(dd["rst"] == "none"),
+                         async_reset=(dd["rst"] == "async"))
+        mods[dd.get("mod", 0)].domains += cd
         B.cds.append(cd)
+    # what expressions may name: the signals, then ResetSignal(domain) for every sync-reset domain
+    B.refs = B.sigs + [ResetSignal(dd["name"]) for dd in d["doms"] if dd.get("rs")]
     for k, md in enumerate(d["mods"]):
         m = mods[k]
         for dom, stmts in md["blocks"]:
-            build_stmts(m, dom, stmts, B.sigs)
-        if md["parent"] is not None:
-            setattr(mods[md["parent"]].submodules, md["name"], m)
+            build_stmts(m, dom, stmts, B.refs)
     B.mem = None
     if d.get("mem"):
         from amaranth.lib.memory import Memory
@@ -518,8 +643,16 @@ def build(d):
         wp = mem.write_port(domain=mm["wdom"], granularity=mm["gran"])
         m = mods[mm["mod"]]
         m.submodules.mem = mem
-        m.d.comb += [wp.addr.eq(G.build(mm["waddr"], B.sigs)), wp.data.eq(G.build(mm["wdata"], B.sigs)),
-                     wp.en.eq(G.build(mm["wen"], B.sigs))]
+        w2 = mm.get("w2")
+        waddr = G.build(mm["waddr"], B.refs)
+        m.d.comb += [wp.addr.eq(Cat(Const(0, 1), waddr) if w2 else waddr), wp.data.eq(G.build(mm["wdata"], B.refs)),
+                     wp.en.eq(G.build(mm["wen"], B.refs))]
+        wps = [wp]
+        if w2:
+            wp2 = mem.write_port(domain=w2["dom"])
+            m.d.comb += [wp2.addr.eq(Cat(Const(1, 1), G.build(w2["addr"], B.refs))),
+                         wp2.data.eq(G.build(w2["data"], B.refs)), wp2.en.eq(G.build(w2["en"], B.refs).bool())]
+            wps.append(wp2)
         B.rdata = []
         for j, rd in enumerate(mm["reads"]):
             if rd["kind"] == "comb":
@@ -527,14 +660,30 @@ def build(d):
             elif rd["kind"] == "sync":
                 rp = mem.read_port(domain=rd["dom"])
             else:
-                rp = mem.read_port(domain=rd["dom"], transparent_for=(wp,))
-            m.d.comb += rp.addr.eq(G.build(rd["addr"], B.sigs))
+                tf = [wp] + ([wps[1]] if w2 and w2["transp"] and w2["dom"] == rd["dom"] else [])
+                rp = mem.read_port(domain=rd["dom"], transparent_for=tuple(tf))
+            m.d.comb += rp.addr.eq(G.build(rd["addr"], B.refs))
             if rd["kind"] != "comb":
-                m.d.comb += rp.en.eq(G.build(rd["en"], B.sigs).bool())
+                m.d.comb += rp.en.eq(G.build(rd["en"], B.refs).bool())
             out = Signal(mm["w"], name=f"rd{j}")
             m.d.comb += out.eq(rp.data)
             B.rdata.append(out)
         B.mem = mem
+    # the hierarchy, children wrapped by their control inserter / domain renamer
+    for k in reversed(range(len(d["mods"]))):
+        md = d["mods"][k]
+        if md["parent"] is None:
+            continue
+        obj = mods[k]
+        wr = md.get("wrap")
+        if wr:
+            if wr[0] == "reset":
+                obj = ResetInserter({wr[1]: B.sigs[wr[2]][0]})(obj)
+            elif wr[0] == "enable":
+                obj = EnableInserter({wr[1]: B.sigs[wr[2]][0]})(obj)
+            else:
+                obj = DomainRenamer(dict(wr[1]))(obj)
+        setattr(mods[md["parent"]].submodules, md["name"], obj)
     B.top = top
     ports = collections.OrderedDict()
     pre = "p_" if d.get("rename") else ""
@@ -557,6 +706,9 @@ def build(d):
             ports[f"rd{j}"] = (s, PortDirection.Output)
             B.outports.append((f"rd{j}", s))
     B.ports = ports
+    if d.get("plist"):
+        # ports=[signals]: names are the signals' own, directions inferred by the backend
+        B.ports = [sig for sig, _ in ports.values()]
     return B
 
 
@@ -611,6 +763,8 @@ def simulate(d, skip=()):
     def sample(ctx):
         row = [(-2 if i in skip else u(ctx.get(s), len(s))) for i, s in enumerate(obs)]
         row += [u(ctx.get(s), len(s)) for s in outs]
+        if B.mem is not None:       # every row of the memory
+            row += [u(ctx.get(B.mem.data[k]), d["mem"]["w"]) for k in range(d["mem"]["depth"])]
         rows.append(row)
 
     async def tb(ctx):
@@ -642,7 +796,12 @@ def convert(d):
     return B, text, where
 
 
-GEN_ERRORS = ("DriverConflict", "SyntaxError", "CombinationalCycle", "TypeError", "ValueError", "IndexError")
+# a generated design is discarded ONLY for these reasons (counted in the evidence): the DSL's own early driver check
+# (amaranth SyntaxError while the Module is being written), a driver conflict / combinational cycle reported by the
+# netlist builder (C06's subject), or a cell the RTLIL evaluator does not cover.  Any other exception of the
+# implementation stays in the case list and is compared (exception class on both sides).
+GEN_ERRORS = ("SyntaxError",)
+DROPS = collections.Counter()
 
 
 def validate(d):
@@ -653,17 +812,20 @@ def validate(d):
         build(d)
     except Exception as e:
         if type(e).__name__ in GEN_ERRORS:
+            DROPS["build:" + type(e).__name__] += 1
             return False, type(e).__name__
-        raise
+        return True, "DSL raised " + type(e).__name__
     try:
         B, text, where = convert(d)
     except Exception as e:
         if type(e).__name__ in ("DriverConflict", "CombinationalCycle"):
+            DROPS["convert:" + type(e).__name__] += 1
             return False, type(e).__name__
         return True, "backend raised " + type(e).__name__
     try:
         R.parse(text)
     except R.Unsupported as e:
+        DROPS["reader:" + str(e)[:40]] += 1
         return False, str(e)
     return True, ""
 
@@ -838,10 +1000,121 @@ def al_term(d):
     return f"k_al\n {tab_t}\n {cells_t}\n {calls_t}"
 
 
+# =============================================================================================== cell tie
+CELL_KINDS = ["$not", "$neg", "$reduce_and", "$reduce_or", "$reduce_xor", "$reduce_bool", "$add", "$sub", "$mul",
+              "$divfloor", "$modfloor", "$shl", "$shr", "$sshr", "$shift", "$and", "$or", "$xor", "$eq", "$ne", "$lt",
+              "$le", "$gt", "$ge"]          # order = RtlilSem.ckind_code
+
+
+def cell_entries(kind, op, thorough):
+    """operand shapes (and constant operands) for which the emitted cell is compared with the model's choice"""
+    ws = [0, 1, 2, 5, 12] if thorough else [0, 1, 5, 12]
+    shapes = [[w, False] for w in ws] + [[w, True] for w in ws if w]
+    if kind == "o1":
+        ents = [[w, sg, None] for w, sg in shapes if not (op == "s" and w == 0)]
+        ents += [[4, False, 5], [4, True, -3]]
+        return ents
+    if kind == "pt":
+        return [[wv, sv, wo, w, st] for wv, sv in shapes if wv for wo in (0, 2, 3) for w in (0, 1, 4) for st in (1, 2, 5)]
+    ents = []
+    for wa, sa in shapes:
+        for wb, sb in shapes:
+            if op in ("<<", ">>") and sb:
+                continue
+            if op == "<<":
+                wb = min(wb, 4)
+            ents.append([[wa, sa, None], [wb, sb, None]])
+    for ca, cb in (([4, False, 3], None), (None, [4, False, 12]), ([3, True, -2], None), (None, [5, True, -1]),
+                   ([4, False, 3], [4, False, 9])):
+        for w, sg in ([5, False], [5, True]):
+            a = ca or [w, sg, None]
+            b_ = cb or [w, sg, None]
+            if op in ("<<", ">>") and b_[1]:
+                continue
+            ents.append([a, b_])
+    seen, out = set(), []
+    for e in ents:
+        if repr(e) not in seen:
+            seen.add(repr(e))
+            out.append(e)
+    return out
+
+
+def cell_cases(thorough):
+    out = [{"k": "cell", "kind": "o2", "op": op, "ents": cell_entries("o2", op, thorough)} for op in G.OP2]
+    out += [{"k": "cell", "kind": "o1", "op": op, "ents": cell_entries("o1", op, thorough)} for op in G.OP1
+            if op not in ("u", "s")]
+    out.append({"k": "cell", "kind": "pt", "op": "pt", "ents": cell_entries("pt", "pt", thorough)})
+    return out
+
+
+def cell_real(c):
+    """the cell the real backend emits for each entry: [type, A_SIGNED, (B_SIGNED,) A_WIDTH, (B_WIDTH,) Y_WIDTH, ...]"""
+    import rtlil_read as R
+    from amaranth.hdl import Signal, Shape, Module, Const
+    from amaranth.back import rtlil
+    out = []
+
+    def opd(e, name):
+        w, sg, cst = e
+        return Const(cst, Shape(w, sg)) if cst is not None else Signal(Shape(w, sg), name=name)
+    for e in c["ents"]:
+        if c["kind"] == "o2":
+            objs = [opd(e[0], "a"), opd(e[1], "b")]
+            val = G.build(["o2", c["op"], ["s", 0], ["s", 1]], objs)
+        elif c["kind"] == "o1":
+            objs = [opd(e, "a")]
+            val = G.build(["o1", c["op"], ["s", 0]], objs)
+        else:
+            wv, sv, wo, w, st = e
+            objs = [Signal(Shape(wv, sv), name="a"), Signal(wo, name="b")]
+            val = G.build(["pt", ["s", 0], ["s", 1], w, st], objs)
+        y = Signal(val.shape(), name="y")
+        m = Module()
+        m.d.comb += y.eq(val)
+        text = rtlil.convert(m, ports=[o for o in objs if isinstance(o, Signal)] + [y], emit_src=False)
+        cells = [it for it in R.parse(text)[0].items if isinstance(it, R.Cell)]
+
+        def pv(cell, name):
+            v = cell.params[name]
+            return v.value if isinstance(v, R.Const) else v
+        if c["kind"] == "pt":
+            sh = [x for x in cells if x.kind == "$shift"]
+            if len(sh) != 1:
+                out += [-1, len(sh), -5]
+                continue
+            mul = [x for x in cells if x.kind == "$mul"]
+            out += [len(mul), pv(sh[0], "B_WIDTH"), pv(sh[0], "A_SIGNED"), pv(sh[0], "A_WIDTH"), pv(sh[0], "Y_WIDTH"), -5]
+        elif not cells:
+            out += [-1, 0, -5]
+        else:
+            x = cells[0]
+            if c["kind"] == "o2":
+                out += [CELL_KINDS.index(x.kind), pv(x, "A_SIGNED"), pv(x, "B_SIGNED"), pv(x, "A_WIDTH"), pv(x, "B_WIDTH"),
+                        pv(x, "Y_WIDTH"), int(any(k.kind == "$mux" for k in cells[1:])), -5]
+            else:
+                out += [CELL_KINDS.index(x.kind), pv(x, "A_SIGNED"), pv(x, "A_WIDTH"), pv(x, "Y_WIDTH"), -5]
+    return out
+
+
+def cell_term(c):
+    def opd_t(e):
+        w, sg, cst = e
+        return f"{z(w)}, {blit(sg)}, " + ("None" if cst is None else f"Some {z(cst)}")
+    if c["kind"] == "o2":
+        ents = "; ".join(f"({opd_t(a)}, ({opd_t(b_)}))" for a, b_ in c["ents"])
+        return f"k_cell2 {G.OP2_COQ[c['op']]} [{ents}]"
+    if c["kind"] == "o1":
+        return f"k_cell1 {G.OP1_COQ[c['op']]} [" + "; ".join(f"({opd_t(e)})" for e in c["ents"]) + "]"
+    return "k_cellpart [" + "; ".join(f"({z(wv)}, {blit(sv)}, {z(wo)}, {z(w)}, {z(st)})" for wv, sv, wo, w, st in c["ents"]) + "]"
+
+
 # =============================================================================================== harness interface
 def run_impl(c):
     if c["k"] == "print":          # replay of the Print observation: the simulator's texts
         return print_texts(c["specs"])[1]
+    if c["k"] == "cell":
+        return cell_real(c)
     d = c["d"]
     if c["k"] == "al":
         try:
@@ -850,7 +1123,10 @@ def run_impl(c):
             return [-1, sum(map(ord, type(e).__name__))]
     try:
         B, text, where = convert(d)
-        skip = {i for i, wh in enumerate(where) if wh is None}
+        # a signal without a name in the emitted text is skipped only if the design does not use it at all;
+        # a USED signal the backend lost is compared (the model answers -4 for it)
+        used = used_signals(d)
+        skip = {i for i, wh in enumerate(where) if wh is None and i not in used}
     except Exception as e:
         skip = set()
     try:
@@ -861,13 +1137,21 @@ def run_impl(c):
     for r in rows:
         out.append(0)
         out.extend(r)
-    if shift_alt(d):
-        out = out + [-6] + out
+    base = out
+    alt, f7 = shift_alt(d), has_async(d)
+    if alt:
+        out = out + [-6] + base
+    if f7:
+        out = out + [-7] + base
+    if alt and f7:
+        out = out + [-8] + base
     return out
 
 
 def coq_term(c):
     import rtlil_read as R
+    if c["k"] == "cell":
+        return cell_term(c)
     d = c["d"]
     if c["k"] == "al":
         try:
@@ -886,10 +1170,13 @@ def coq_term(c):
         for it in m_.items:
             CELL_HIST["process" if isinstance(it, R.Process) else (it.kind if it.kind.startswith("$") else "submodule")] += 1
     obs = []
-    for s, wh in zip(observed_signals(B), where):
-        if wh is None:
-            # the backend did not name the signal anywhere (unused): compare nothing for it
+    used = used_signals(d)
+    for si, (s, wh) in enumerate(zip(observed_signals(B), where)):
+        if wh is None and si not in used:
+            # the design does not use the signal and the backend did not name it: compare nothing for it
             obs.append(None)
+        elif wh is None:
+            obs.append(([99], 0, len(s)))         # used but lost by the backend: unresolvable -> -4
         else:
             path, wi, ww = R.resolve_path(mods, wh[:-1], wh[-1])
             if ww != len(s):
@@ -905,25 +1192,56 @@ def coq_term(c):
             raise R.RtlilError(f"top module has no input port {pname}")
         inw[key] = (top.windex[wn], len(sig), sig.init)
     init_ins = "[" + "; ".join(f"({wi}%nat, {z(u(init, w))})" for (wi, w, init) in inw.values()) + "]"
-    steps = []
+    def sstep(emit, prs, vclk=()):
+        return ("(" + blit(emit) + ", [" + "; ".join(f"({wi}%nat, {z(v)})" for wi, v in prs) + "], [" +
+                "; ".join(f"({wi}%nat, {a0}, {a1})" for wi, a0, a1 in vclk) + "])")
+    steps, steps_f7 = [], []
+    rstv = [0] * len(d["doms"])
     for kind, sets in d["stim"]:
         if kind == "data":
             prs = [(inw[tuple(tgt)][0], u(v, inw[tuple(tgt)][1])) for tgt, v in sets]
+            steps.append(sstep(True, prs))
+            # F7 run: the testbench sets the inputs one after the other; a rise of an async reset is an event of its
+            # own (the domain's clock pulses virtually), everything set before it is already settled
+            sub, group = [], []
+            for tgt, v in sets:
+                pr = (inw[tuple(tgt)][0], u(v, inw[tuple(tgt)][1]))
+                if tgt[0] == "rst":
+                    rise = d["doms"][tgt[1]]["rst"] == "async" and v == 1 and rstv[tgt[1]] == 0
+                    rstv[tgt[1]] = v
+                    if rise:
+                        if group:
+                            sub.append((group, ()))
+                            group = []
+                        neg = d["doms"][tgt[1]].get("edge", "pos") == "neg"
+                        sub.append(([pr], [(inw[("clk", tgt[1])][0], 1 if neg else 0, 0 if neg else 1)]))
+                        continue
+                group.append(pr)
+            if group or not sub:
+                sub.append((group, ()))
+            for k_, (g_, vc) in enumerate(sub):
+                steps_f7.append(sstep(k_ == len(sub) - 1, g_, vc))
         else:
             prs = [(inw[("clk", di)][0], v) for di, v in sets]
-        steps.append("[" + "; ".join(f"({wi}%nat, {z(v)})" for wi, v in prs) + "]")
+            steps.append(sstep(True, prs))
+            steps_f7.append(sstep(True, prs))
     # output ports of the top module: checked against the simulator value of the port's signal as extra observations
     extra_obs = []
     for pname, sig in B.outports:
         wn = "\\" + pname
-        if wn not in top.windex or top.wires[top.windex[wn]].kind != "output":
+        if wn not in top.windex or (top.wires[top.windex[wn]].kind != "output" and len(sig) > 0):
+            # (a zero-width signal has no nets: with ports=[...] the backend cannot see it driven and makes it an input)
             raise R.RtlilError(f"top module has no output port {pname}")
         extra_obs.append((top.windex[wn], len(sig)))
     port_t = "[" + "; ".join(f"([], {wi}%nat, {ww})" for wi, ww in extra_obs) + "]"
-    return f"k_run {blit(shift_alt(d))}\n {doc}\n {obs_t}\n {port_t}\n {init_ins}\n [" + ";\n  ".join(steps) + "]"
+    f7 = has_async(d)
+    return (f"k_run {blit(shift_alt(d))} {blit(f7)} {blit(bool(d.get('mem')))}\n {doc}\n {obs_t}\n {port_t}\n {init_ins}\n ["
+            + ";\n  ".join(steps) + "]\n [" + (";\n  ".join(steps_f7) if f7 else "") + "]")
 
 
 def classify(c):
+    if c["k"] == "cell":
+        return "cell:" + c["op"]
     d = c["d"]
     if c["k"] == "op":
         t = d["mods"][0]["blocks"][0][1][0][2]
@@ -941,6 +1259,17 @@ def classify(c):
             dd += 1
         dep = max(dep, dd)
     tags = [f"mods{nm}", f"depth{dep}", f"doms{len(d['doms'])}"]
+    if any(x.get("edge") == "neg" for x in d["doms"]):
+        tags.append("negedge")
+    if any(x.get("mod", 0) for x in d["doms"]):
+        tags.append("subdomain")
+    for md in d["mods"]:
+        if md.get("wrap"):
+            tags.append(md["wrap"][0])
+    if d.get("plist"):
+        tags.append("portlist")
+    if d.get("mem") and d["mem"].get("w2"):
+        tags.append("2wports")
     if any(x["rst"] == "async" for x in d["doms"]):
         tags.append("async")
     if d.get("mem"):
@@ -949,13 +1278,17 @@ def classify(c):
 
 
 def nontrivial(c, obs):
+    if c["k"] == "cell":
+        return bool(obs) and -1 not in obs
     if not obs or obs[0] == -1:
         return False
     if c["k"] == "al":
         return 1 in obs[:obs.index(-9)] if -9 in obs else False      # some process has a switch
     d = c["d"]
-    if shift_alt(d):
-        obs = obs[:len(obs) // 2]
+    so = split_answers(d, obs)
+    if so is None:
+        return False
+    obs = so["base"]
     n = len(d["stim"]) + 1
     if len(obs) % n:
         return False
@@ -967,13 +1300,43 @@ def nontrivial(c, obs):
 def shift_alt(d):
     """does the design contain a part-select of a signed value that can reach above the operand?  Then the model
     answers twice: under the reading of $shift in force, and (after -6) under the other one"""
-    shapes = [[x["w"], x["sg"]] for x in d["sigs"]]
+    shapes = all_shapes(d)
     pred = lambda t: has_signed_part(t, shapes)
     if any(stmts_have(st, pred) for md in d["mods"] for _, st in md["blocks"]):
         return True
     mm = d.get("mem")
-    return bool(mm and any(pred(e) for e in [mm["waddr"], mm["wdata"], mm["wen"]] +
-                           [x for r in mm["reads"] for x in (r["addr"], r["en"])]))
+    if not mm:
+        return False
+    es = [mm["waddr"], mm["wdata"], mm["wen"]] + [x for r in mm["reads"] for x in (r["addr"], r["en"])]
+    if mm.get("w2"):
+        es += [mm["w2"]["addr"], mm["w2"]["data"], mm["w2"]["en"]]
+    return any(pred(e) for e in es)
+
+
+def has_async(d):
+    return any(x["rst"] == "async" for x in d["doms"])
+
+
+def split_answers(d, l):
+    """the runs inside one answer: base [, -6, other $shift reading] [, -7, F7 behaviour] [, -8, both]"""
+    n = 1 + int(shift_alt(d)) + int(has_async(d)) + int(shift_alt(d) and has_async(d))
+    if n == 1:
+        return {"base": l}
+    if (len(l) - (n - 1)) % n:
+        return None
+    h = (len(l) - (n - 1)) // n
+    names = ["base"] + (["shift"] if shift_alt(d) else []) + (["f7"] if has_async(d) else []) + \
+            (["both"] if shift_alt(d) and has_async(d) else [])
+    seps = {"shift": -6, "f7": -7, "both": -8}
+    out, pos = {}, 0
+    for k_, nm in enumerate(names):
+        if k_:
+            if l[pos] != seps[nm]:
+                return None
+            pos += 1
+        out[nm] = l[pos:pos + h]
+        pos += h
+    return out
 
 
 def _rows(c, l):
@@ -985,38 +1348,26 @@ def _rows(c, l):
 
 
 def known_finding(c, obs, model):
-    """F7: the first diverging row is a data step that raises the reset of an async-reset domain (no clock edge in
-    that step).  SHIFT: the design contains a part-select of a signed value that can reach above the operand
-    (emitted as $shift with A_SIGNED, whose published meaning is a logical shift) AND the emitted RTLIL agrees with
-    the simulator on every row when $shift is read the other way (second half of the model's answer)."""
+    """A disagreement of the first run (RTLIL as published vs simulator) is a listed finding only if the model run
+    under that finding's semantics reproduces the simulator EXACTLY, on every row and column:
+    SHIFT = the other reading of $shift with A_SIGNED; F7 = a rise of an async reset pulses the domain's clock for
+    every clocked element (the simulator runs the whole sync process)."""
+    if c["k"] in ("al", "cell"):
+        return None
     d = c["d"]
-    if c["k"] == "al":
+    so, sm = split_answers(d, obs), split_answers(d, model)
+    if so is None or sm is None or so.keys() != sm.keys():
         return None
-    alt = shift_alt(d)
-    if alt:
-        if len(obs) != len(model) or len(obs) % 2 == 0 or obs[len(obs) // 2] != -6 or model[len(obs) // 2] != -6:
-            return None
-        h = len(obs) // 2
-        obs, model, model_alt = obs[:h], model[:h], model[h + 1:]
-    if alt and model_alt == obs:
-        return SHIFT_ID if model != obs else None
-    # what remains once the $shift reading is discounted
-    ro, rm = _rows(c, obs), _rows(c, model_alt if alt else model)
-    if ro is None or rm is None or len(ro) != len(rm):
+    if any(v != so["base"] for v in so.values()):
         return None
-    first = next((j for j in range(len(ro)) if ro[j] != rm[j]), None)
-    if first is None:
-        return None
-    if first >= 1:
-        rst = [0] * len(d["doms"])
-        for j, (kind, sets) in enumerate(d["stim"], 1):
-            if kind != "data":
-                continue
-            for tgt, v in sets:
-                if tgt[0] == "rst":
-                    if j == first and d["doms"][tgt[1]]["rst"] == "async" and v == 1 and rst[tgt[1]] == 0:
-                        return F7_ID
-                    rst[tgt[1]] = v
+    if sm["base"] == so["base"]:
+        return None              # the published semantics agree; something else differs: not a known finding
+    if "shift" in sm and sm["shift"] == so["base"]:
+        return SHIFT_ID
+    if "f7" in sm and sm["f7"] == so["base"]:
+        return F7_ID
+    if "both" in sm and sm["both"] == so["base"]:
+        return F7_ID             # both findings at once (both ids are listed)
     return None
 
 
@@ -1112,15 +1463,17 @@ def extra(tier, seed, findings):
     comparisons = 0
     steps = 0
     n_al = sum(1 for c in cases if c["k"] == "al")
+    n_cell = sum(len(c["ents"]) for c in cases if c["k"] == "cell")
     for c in cases:
-        if c["k"] == "al":
+        if c["k"] in ("al", "cell"):
             continue
         d = c["d"]
         nobs = len(d["sigs"]) + len(d["outs"]) + (2 * len(d["mem"]["reads"]) if d.get("mem") else 0)
         comparisons += (len(d["stim"]) + 1) * nobs
         steps += len(d["stim"])
-    cov = {"programs": len(cases) - n_al, "disagreements_checked": comparisons, "stimulus_steps": steps,
+    cov = {"programs": len([c for c in cases if c["k"] not in ("al", "cell")]), "cell_tie_entries": n_cell, "disagreements_checked": comparisons, "stimulus_steps": steps,
            "assignment_list_tie_designs": n_al,
+           "generator_dropped_designs": dict(DROPS),
            "print_format_observations": [{"spec": sp, "simulator_text": o, "format_string": f.rstrip("\n"),
                                           "format_text_as_read": r} for sp, r, o, f in diffs],
            "rtlil_cell_histogram": dict(CELL_HIST), "rtlil_modules": MOD_COUNT[0],
